@@ -9,6 +9,7 @@ import (
 	"time"
 
 	res "github.com/jirenius/go-res"
+	"github.com/jirenius/go-res/logger"
 
 	"verif/internal/rconn"
 )
@@ -147,6 +148,11 @@ func NewScenario(tr *Tracer, prog Program) *Scenario {
 	}
 	s := res.NewService("test")
 	s.SetLogger(nil)
+	if sc.prog.InCh%2 == 1 {
+		// a logger, and an OnError hook that looks at the service (what a monitoring hook does)
+		s.SetLogger(logger.NewMemLogger())
+		s.SetOnError(func(sv *res.Service, msg string) { _ = sv.Conn(); _ = sv.ProtocolVersion() })
+	}
 	s.SetWorkerCount(sc.prog.Workers)
 	s.SetQueryEventDuration(2 * time.Millisecond)
 	if sc.prog.InCh > 0 {
